@@ -38,6 +38,8 @@ func main() {
 		os.Exit(cmdManifest())
 	case "dump-funcs":
 		os.Exit(cmdDumpFuncs(os.Args[2:]))
+	case "retcases":
+		os.Exit(cmdRetCases(os.Args[2:]))
 	case "norm":
 		os.Exit(cmdNorm(os.Args[2:]))
 	case "list":
